@@ -246,7 +246,7 @@ func checkC10(tier, replay string) int {
 
 // straceFlagCheck observes the flags argument after the syscall seam (what actually crosses into the kernel).
 func straceFlagCheck(ctx *evid.Ctx) {
-	if _, err := exec.LookPath("strace"); err != nil {
+	if !straceWorks() {
 		ctx.Cov["strace"] = "not available"
 		return
 	}
